@@ -399,9 +399,9 @@ func reachesBlock(from, to, avoid *ssa.BasicBlock) bool {
 
 func c12R2(ic *IC, r *Report) {
 	g := buildSGraph(ic.SP)
-	root := ssaMethod(ic.SP, "Interpreter", "CompileAST")
-	run := ssaMethod(ic.SP, "Interpreter", "run")
-	runCfg := ic.SP.Func("runCfg")
+	root := ic.ssaMeth("Interpreter", "CompileAST")
+	run := ic.ssaMeth("Interpreter", "run")
+	runCfg := ic.ssaFunc("runCfg")
 	if root == nil || run == nil || runCfg == nil {
 		r.Errorf("anchor not resolved: CompileAST / run / runCfg")
 		return
@@ -806,7 +806,7 @@ func overwrittenErrDefs(ic *IC, body *ast.BlockStmt) ([]overwriteHit, int) {
 
 func c12R4(ic *IC, r *Report) {
 	g := buildSGraph(ic.SP)
-	root := ssaMethod(ic.SP, "Interpreter", "cfg")
+	root := ic.ssaMeth("Interpreter", "cfg")
 	if root == nil {
 		r.Errorf("anchor not resolved: (*Interpreter).cfg")
 		return
